@@ -849,6 +849,29 @@ class ndarray_shim(metaclass=_NdarrayMeta):
         return SymArr.input(f"uninit{next(_uninit)}", shape, _kind_of_type(dtype))
 
 
+def sym_empty(shape, dtype=float, **kw):
+    """np.empty: arbitrary contents (a fresh uninterpreted function), like np.ndarray(shape)"""
+    shape = _shape_tuple(shape)
+    if not _has_sym(shape) and not core.active():
+        return _np.empty(shape, dtype=dtype, **kw)
+    return SymArr.input(f"uninit{next(_uninit)}", shape, _kind_of_type(dtype))
+
+
+def sym_empty_like(a, dtype=None, **kw):
+    if not isinstance(a, SymArr):
+        return _np.empty_like(a, dtype=dtype, **kw)
+    k = a.kind if dtype is None else _kind_of_type(dtype)
+    return SymArr.input(f"uninit{next(_uninit)}", a.shape, k)
+
+
+def sym_ones_like(a, dtype=None, **kw):
+    if not isinstance(a, SymArr):
+        return _np.ones_like(a, dtype=dtype, **kw)
+    k = a.kind if dtype is None else _kind_of_type(dtype)
+    o = _const_expr(1, k)
+    return SymArr.fresh(a.shape, lambda idx: o, k)
+
+
 # ----------------------------------------------------------------------------------------
 # indexing
 
@@ -2385,6 +2408,8 @@ _FUNC_IMPL = {
     _np.isclose: sym_isclose,
     _np.array_equal: sym_array_equal,
     _np.zeros_like: sym_zeros_like,
+    _np.ones_like: sym_ones_like,
+    _np.empty_like: sym_empty_like,
     _np.full_like: sym_full_like,
     _np.copy: lambda a, **kw: a.copy(),
     _np.transpose: sym_transpose,
@@ -2430,6 +2455,9 @@ class NPShim:
     full = staticmethod(sym_full)
     full_like = staticmethod(sym_full_like)
     zeros_like = staticmethod(sym_zeros_like)
+    ones_like = staticmethod(sym_ones_like)
+    empty = staticmethod(sym_empty)
+    empty_like = staticmethod(sym_empty_like)
     array = staticmethod(sym_array)
     asarray = staticmethod(sym_asarray)
     einsum = staticmethod(sym_einsum)
@@ -2648,6 +2676,45 @@ def fvc_listcomp(f, it):
     return SymSeq.define(n, body_of, facts_of, also_at=also)
 
 
+class SymZipItemsPositions:
+    """zip(items, range(len(items))): the pairs (item j, j)"""
+
+    def __init__(self, items):
+        self.items = items
+
+
+def sh_zip(*its, **kw):
+    if len(its) == 2 and hasattr(its[0], "contains_expr") and isinstance(getattr(its[0], "n", None), SymInt):
+        a, b = its
+        if isinstance(b, SymRange) and isinstance(b.lo, int) and b.lo == 0 and same_size(b.hi, a.n):
+            return SymZipItemsPositions(a)
+        raise Unsupported("zip of a symbolic item list with something other than range(len(items))")
+    if any(hasattr(x, "contains_expr") and isinstance(getattr(x, "n", None), SymInt) for x in its):
+        raise Unsupported("zip over a symbolic item list")
+    return builtins.zip(*its, **kw)
+
+
+class _DictMeta(type):
+    def __instancecheck__(cls, inst):
+        return isinstance(inst, builtins.dict)
+
+    def __subclasscheck__(cls, sub):
+        return issubclass(sub, builtins.dict)
+
+
+class sh_dict(metaclass=_DictMeta):
+    """`dict` as seen by flodym modules: dict(zip(items, range(len(items)))) is the item -> position mapping"""
+
+    fromkeys = builtins.dict.fromkeys
+
+    def __new__(cls, *a, **k):
+        if len(a) == 1 and isinstance(a[0], SymZipItemsPositions):
+            from . import symtable
+
+            return symtable.ItemPosMap(a[0].items, lambda j: to_int(j))
+        return builtins.dict(*a, **k)
+
+
 def _sh_enumerate(it, start=0):
     from . import symtable
 
@@ -2666,4 +2733,4 @@ def _fvc_dictcomp(f, it, nargs=1):
     return symtable.fvc_dictcomp(f, it, nargs)
 
 
-BUILTIN_SHIMS = {"enumerate": _sh_enumerate, "any": _sh_any, "__fvc_dictcomp__": _fvc_dictcomp, "len": sh_len, "int": sh_int, "abs": sh_abs, "max": sh_max, "min": sh_min, "range": sh_range, "list": sh_list, "set": sh_set, "__fvc_listcomp__": fvc_listcomp}
+BUILTIN_SHIMS = {"enumerate": _sh_enumerate, "any": _sh_any, "__fvc_dictcomp__": _fvc_dictcomp, "len": sh_len, "int": sh_int, "abs": sh_abs, "max": sh_max, "min": sh_min, "range": sh_range, "list": sh_list, "set": sh_set, "__fvc_listcomp__": fvc_listcomp, "zip": sh_zip, "dict": sh_dict}
